@@ -15,6 +15,9 @@ type Search struct {
 	Symbols  []byte
 	MaxDepth int // bound on the probe's depth measure; deeper keys are frontier cuts
 	MaxLen   int // safety bound on representative length
+	// MaxStates (default 6 M): the search stops with a reported cap instead of
+	// exhausting memory when the key graph turns out larger than expected.
+	MaxStates int
 	// Key runs a fresh scanner over the prefix (no end-of-input handling) and returns
 	// the canonical abstract state.
 	Key func(prefix []byte) (key string, depth int, dead bool)
@@ -55,7 +58,15 @@ func (s *Search) Run() {
 		s.Check([]byte{})
 	}
 	var t int64
+	maxStates := s.MaxStates
+	if maxStates == 0 {
+		maxStates = 6_000_000
+	}
 	for len(frontier) > 0 {
+		if len(seen) > maxStates {
+			w.Cap(fmt.Sprintf("%s: state search stopped at %d states (memory bound); deeper levels not explored", s.Name, len(seen)))
+			break
+		}
 		var next [][]byte
 		for _, pre := range frontier {
 			if w.OverBudget() {
